@@ -1,0 +1,316 @@
+//! Verification hooks. Compiled only with `--cfg serde_saphyr_verif`; never part of the public API.
+//!
+//! Thin wrappers that expose crate-private pure functions and the live event pump to the
+//! external correspondence harness. Nothing here changes behaviour of the crate.
+#![allow(missing_docs, dead_code, deprecated)]
+
+use crate::de::{Ev, Events};
+use crate::live_events::LiveEvents;
+use crate::options::Options;
+use crate::tags::SfTag;
+use saphyr_parser::ScalarStyle;
+
+pub fn style_of(code: u8) -> ScalarStyle {
+    match code {
+        0 => ScalarStyle::Plain,
+        1 => ScalarStyle::SingleQuoted,
+        2 => ScalarStyle::DoubleQuoted,
+        3 => ScalarStyle::Literal,
+        _ => ScalarStyle::Folded,
+    }
+}
+
+pub fn style_code(style: &ScalarStyle) -> u8 {
+    match style {
+        ScalarStyle::Plain => 0,
+        ScalarStyle::SingleQuoted => 1,
+        ScalarStyle::DoubleQuoted => 2,
+        ScalarStyle::Literal => 3,
+        ScalarStyle::Folded => 4,
+    }
+}
+
+pub(crate) fn sftag_code(tag: SfTag) -> u8 {
+    match tag {
+        SfTag::None => 0,
+        SfTag::Int => 1,
+        SfTag::Float => 2,
+        SfTag::Bool => 3,
+        SfTag::Null => 4,
+        SfTag::Seq => 5,
+        SfTag::Map => 6,
+        SfTag::TimeStamp => 7,
+        SfTag::Binary => 8,
+        SfTag::String => 9,
+        SfTag::NonSpecific => 10,
+        SfTag::Degrees => 11,
+        SfTag::Radians => 12,
+        SfTag::Other => 13,
+    }
+}
+
+/// `SfTag::from_optional_cow` on a parser tag.
+pub fn sftag_of(tag: &Option<std::borrow::Cow<'_, saphyr_parser::Tag>>) -> u8 {
+    sftag_code(SfTag::from_optional_cow(tag))
+}
+
+pub fn can_parse_into_string(code: u8) -> bool {
+    let all = [
+        SfTag::None,
+        SfTag::Int,
+        SfTag::Float,
+        SfTag::Bool,
+        SfTag::Null,
+        SfTag::Seq,
+        SfTag::Map,
+        SfTag::TimeStamp,
+        SfTag::Binary,
+        SfTag::String,
+        SfTag::NonSpecific,
+        SfTag::Degrees,
+        SfTag::Radians,
+        SfTag::Other,
+    ];
+    all[code as usize].can_parse_into_string()
+}
+
+pub fn parse_int_signed(bits: u32, s: &str, legacy_octal: bool) -> Option<i128> {
+    use crate::parse_scalars::parse_int_signed as p;
+    let loc = crate::Location::UNKNOWN;
+    match bits {
+        8 => p::<i8>(s, "i8", loc, legacy_octal).ok().map(|v| v as i128),
+        16 => p::<i16>(s, "i16", loc, legacy_octal).ok().map(|v| v as i128),
+        32 => p::<i32>(s, "i32", loc, legacy_octal).ok().map(|v| v as i128),
+        64 => p::<i64>(s, "i64", loc, legacy_octal).ok().map(|v| v as i128),
+        _ => p::<i128>(s, "i128", loc, legacy_octal).ok(),
+    }
+}
+
+pub fn parse_int_unsigned(bits: u32, s: &str, legacy_octal: bool) -> Option<u128> {
+    use crate::parse_scalars::parse_int_unsigned as p;
+    let loc = crate::Location::UNKNOWN;
+    match bits {
+        8 => p::<u8>(s, "u8", loc, legacy_octal).ok().map(|v| v as u128),
+        16 => p::<u16>(s, "u16", loc, legacy_octal).ok().map(|v| v as u128),
+        32 => p::<u32>(s, "u32", loc, legacy_octal).ok().map(|v| v as u128),
+        64 => p::<u64>(s, "u64", loc, legacy_octal).ok().map(|v| v as u128),
+        _ => p::<u128>(s, "u128", loc, legacy_octal).ok(),
+    }
+}
+
+pub fn parse_yaml11_bool(s: &str) -> Option<bool> {
+    crate::parse_scalars::parse_yaml11_bool(s).ok()
+}
+
+pub fn scalar_is_nullish(s: &str, style: u8) -> bool {
+    crate::parse_scalars::scalar_is_nullish(s, &style_of(style))
+}
+
+pub fn scalar_is_nullish_for_option(s: &str, style: u8) -> bool {
+    crate::parse_scalars::scalar_is_nullish_for_option(s, &style_of(style))
+}
+
+pub fn maybe_not_string(s: &str, style: u8) -> bool {
+    crate::parse_scalars::maybe_not_string(s, &style_of(style))
+}
+
+pub fn leading_zero_decimal(s: &str) -> bool {
+    crate::parse_scalars::leading_zero_decimal(s)
+}
+
+/// `parse_yaml12_float::<f64>` without the angle extension: `Some(bits)` on success.
+pub fn parse_float64(s: &str) -> Option<u64> {
+    crate::parse_scalars::parse_yaml12_float::<f64>(s, crate::Location::UNKNOWN, SfTag::None, false)
+        .ok()
+        .map(|v| v.to_bits())
+}
+
+pub fn parse_float32(s: &str) -> Option<u32> {
+    crate::parse_scalars::parse_yaml12_float::<f32>(s, crate::Location::UNKNOWN, SfTag::None, false)
+        .ok()
+        .map(|v| v.to_bits())
+}
+
+pub fn decode_base64_yaml(s: &str) -> Option<Vec<u8>> {
+    crate::base64::decode_base64_yaml(s).ok()
+}
+
+/// One event as delivered by `LiveEvents` (after alias replay), flattened for comparison.
+#[derive(Clone, Debug, PartialEq, Eq)]
+pub struct EvDump {
+    /// 0 scalar, 1 seq start, 2 seq end, 3 map start, 4 map end, 5 taken
+    pub kind: u8,
+    pub value: String,
+    pub style: u8,
+    pub tag: u8,
+    pub raw_tag: Option<String>,
+    pub anchor: usize,
+    pub location: crate::Location,
+    /// `Events::reference_location()` observed after `peek()` and before `next()`.
+    pub reference_location: crate::Location,
+    /// `Events::last_location()` observed after `next()`.
+    pub last_location: crate::Location,
+}
+
+fn dump_ev(ev: &Ev<'_>, reference_location: crate::Location) -> EvDump {
+    let mut d = EvDump {
+        kind: 5,
+        value: String::new(),
+        style: 0,
+        tag: 0,
+        raw_tag: None,
+        anchor: 0,
+        location: ev.location(),
+        reference_location,
+        last_location: crate::Location::UNKNOWN,
+    };
+    match ev {
+        Ev::Scalar {
+            value,
+            tag,
+            raw_tag,
+            style,
+            anchor,
+            ..
+        } => {
+            d.kind = 0;
+            d.value = value.to_string();
+            d.tag = sftag_code(*tag);
+            d.raw_tag = raw_tag.as_ref().map(|t| t.to_string());
+            d.style = style_code(style);
+            d.anchor = *anchor;
+        }
+        Ev::SeqStart {
+            anchor,
+            tag,
+            raw_tag,
+            ..
+        } => {
+            d.kind = 1;
+            d.tag = sftag_code(*tag);
+            d.raw_tag = raw_tag.as_ref().map(|t| t.to_string());
+            d.anchor = *anchor;
+        }
+        Ev::SeqEnd { .. } => d.kind = 2,
+        Ev::MapStart { anchor, .. } => {
+            d.kind = 3;
+            d.anchor = *anchor;
+        }
+        Ev::MapEnd { .. } => d.kind = 4,
+        Ev::Taken { .. } => d.kind = 5,
+    }
+    d
+}
+
+/// Result of driving the live event pump to the end (or to its first error).
+pub struct PumpResult {
+    pub events: Vec<EvDump>,
+    /// Error returned by `peek`/`next`, if any.
+    pub error: Option<crate::Error>,
+    /// Result of `finish()` (only called when the pump ended without error).
+    pub finish_error: Option<crate::Error>,
+    pub seen_doc_end: bool,
+    pub synthesized_null: bool,
+}
+
+fn pump(mut src: LiveEvents<'_>, use_peek: bool, max_events: usize) -> PumpResult {
+    let mut events = Vec::new();
+    let mut error = None;
+    loop {
+        if events.len() >= max_events {
+            break;
+        }
+        let mut reference_location = crate::Location::UNKNOWN;
+        if use_peek {
+            match src.peek() {
+                Ok(Some(_)) => reference_location = src.reference_location(),
+                Ok(None) => break,
+                Err(e) => {
+                    error = Some(e);
+                    break;
+                }
+            }
+        }
+        match src.next() {
+            Ok(Some(ev)) => {
+                let mut d = dump_ev(&ev, reference_location);
+                d.last_location = src.last_location();
+                events.push(d);
+            }
+            Ok(None) => break,
+            Err(e) => {
+                error = Some(e);
+                break;
+            }
+        }
+    }
+    let finish_error = if error.is_none() {
+        src.finish().err()
+    } else {
+        None
+    };
+    PumpResult {
+        events,
+        error,
+        finish_error,
+        seen_doc_end: src.seen_doc_end(),
+        synthesized_null: src.synthesized_null_emitted(),
+    }
+}
+
+/// Drive `LiveEvents::from_str` to exhaustion, the way the entry points construct it.
+pub fn pump_all_str(
+    input: &str,
+    options: Options,
+    stop_at_doc_end: bool,
+    use_peek: bool,
+    max_events: usize,
+) -> PumpResult {
+    let src = LiveEvents::from_str(
+        input,
+        options.budget,
+        options.budget_report,
+        options.budget_report_cb,
+        options.alias_limits,
+        stop_at_doc_end,
+    );
+    pump(src, use_peek, max_events)
+}
+
+/// Drive `LiveEvents::from_reader` to exhaustion.
+pub fn pump_all_reader<'a, R: std::io::Read + 'a>(
+    reader: R,
+    options: Options,
+    stop_at_doc_end: bool,
+    per_document: bool,
+    use_peek: bool,
+    max_events: usize,
+) -> PumpResult {
+    let policy = if per_document {
+        crate::budget::EnforcingPolicy::PerDocument
+    } else {
+        crate::budget::EnforcingPolicy::AllContent
+    };
+    let src = LiveEvents::from_reader(
+        reader,
+        options.budget,
+        options.budget_report,
+        options.budget_report_cb,
+        options.alias_limits,
+        stop_at_doc_end,
+        policy,
+    );
+    pump(src, use_peek, max_events)
+}
+
+/// Location fields that are `pub(crate)`.
+pub fn location_parts(l: &crate::Location) -> (u32, u32, u64, u64, u64, u64) {
+    (
+        l.line,
+        l.column,
+        l.span.offset as u64,
+        l.span.len as u64,
+        l.span.byte_info.0 as u64,
+        l.span.byte_info.1 as u64,
+    )
+}
